@@ -152,6 +152,7 @@ func run(id, mode string, cfg propCfg, seed uint64, runDir string) int {
 			return 2
 		}
 		cmd := exec.Command(bin, "-prop", id, "-replay", os.Args[3])
+		cmd.Env = append(os.Environ(), "VERIF_RW_DIR="+filepath.Join(runDir, "rw"))
 		cmd.Stdout, cmd.Stderr = os.Stdout, os.Stderr
 		err := cmd.Run()
 		if ee, ok := err.(*exec.ExitError); ok {
@@ -197,6 +198,7 @@ func run(id, mode string, cfg propCfg, seed uint64, runDir string) int {
 	nontriv := map[string]bool{}
 	states := map[string]bool{}
 	var trouble []string
+	var disagreements []string
 	for _, sd := range seeds {
 		outs := make([]*sim.WorkerOut, workers)
 		errs := make([]string, workers)
@@ -209,7 +211,7 @@ func run(id, mode string, cfg propCfg, seed uint64, runDir string) int {
 				cmd := exec.Command(bin, "-prop", id, "-tier", tier, "-seed", fmt.Sprint(sd),
 					"-first", fmt.Sprint(w), "-stride", fmt.Sprint(workers), "-count", fmt.Sprint(count),
 					"-deadline", perSeedDL.String(), "-out", of)
-				cmd.Env = append(os.Environ(), "GOMAXPROCS=2")
+				cmd.Env = append(os.Environ(), "GOMAXPROCS=2", "VERIF_RW_DIR="+filepath.Join(runDir, "rw"))
 				var eb bytes.Buffer
 				cmd.Stderr = &eb
 				cmd.Stdout = &eb
@@ -277,6 +279,11 @@ func run(id, mode string, cfg propCfg, seed uint64, runDir string) int {
 			}
 			trouble = append(trouble, wo.Trouble...)
 			for k, v := range wo.Extra {
+				if strings.HasPrefix(k, "must_agree:") {
+					if old, ok := merged.Extra[k]; ok && fmt.Sprint(old) != fmt.Sprint(v) {
+						disagreements = append(disagreements, fmt.Sprintf("%s: %v in one worker process, %v in another", strings.TrimPrefix(k, "must_agree:"), old, v))
+					}
+				}
 				merged.Extra[k] = v
 			}
 		}
@@ -303,6 +310,7 @@ func run(id, mode string, cfg propCfg, seed uint64, runDir string) int {
 			}
 		}
 		cmd := exec.Command(bin, "-prop", id, "-replay", v)
+		cmd.Env = append(os.Environ(), "VERIF_RW_DIR="+filepath.Join(runDir, "rw"))
 		out, err := cmd.CombinedOutput()
 		c := 0
 		if ee, ok := err.(*exec.ExitError); ok {
@@ -313,6 +321,28 @@ func run(id, mode string, cfg propCfg, seed uint64, runDir string) int {
 		} else {
 			trouble = append(trouble, fmt.Sprintf("violation %s did not replay identically (exit %d): %s", v, c, tail(string(out), 500)))
 		}
+	}
+	if len(disagreements) > 0 {
+		// results that must be equal in every process differ: a violation whose
+		// "replay" is the record of the disagreement
+		sort.Strings(disagreements)
+		path := filepath.Join(verifDir, "replays", fmt.Sprintf("%s-%d-crossprocess.json", id, seed))
+		b, _ := json.MarshalIndent(map[string]any{"property": id, "class": "cross_process_differs", "signature": "cross_process_differs", "detail": disagreements, "seed": seed}, "", " ")
+		os.MkdirAll(filepath.Dir(path), 0o755)
+		os.WriteFile(path, b, 0o644)
+		confirmed = append(confirmed, path)
+	}
+	// must_agree values are bulky: keep only their count in the evidence
+	agree := 0
+	for k := range merged.Extra {
+		if strings.HasPrefix(k, "must_agree:") {
+			agree++
+			delete(merged.Extra, k)
+		}
+	}
+	if agree > 0 {
+		merged.Extra["values_compared_across_worker_processes"] = agree
+		merged.Extra["cross_process_disagreements"] = len(disagreements)
 	}
 	wall := time.Since(t0).Seconds()
 	for _, k := range merged.Known {
